@@ -58,6 +58,7 @@ type loopInfo struct {
 	impure  bool         // contains a heap store or a non-pure call
 	// runtime
 	variant0  *Term
+	exitEdges int
 	head      *State // state at the loop head of the iteration being executed (for step clauses)
 	frame     *FrameSet
 	backEdges int
@@ -621,6 +622,39 @@ func (u *Unit) edge(fr *Frame, in map[*ssa.BasicBlock][]incoming, from, to *ssa.
 		u.checkInvariant(fr, li, bst, "preserved")
 		return
 	}
+	// where a loop is left: its `exit` clauses are proved on every edge into the block
+	// the loop falls through to when its condition fails - the edge from the header and
+	// the edges of the break paths (whose blocks are not part of the natural loop)
+	for _, li := range fr.loops {
+		if li.spec == nil || len(li.spec.Exits) == 0 {
+			continue
+		}
+		var done *ssa.BasicBlock
+		for _, sc := range li.header.Succs {
+			if !li.blocks[sc] {
+				done = sc
+			}
+		}
+		if done == nil || to != done {
+			continue
+		}
+		est := st.clone()
+		u.assume(est, cond)
+		env := u.envFor(fr, est, u.entryFor(fr), nil)
+		env.loop = li
+		li.exitEdges++
+		suffix := ""
+		if li.exitEdges > 1 {
+			suffix = fmt.Sprintf("~%d", li.exitEdges)
+		}
+		for i, ec := range li.spec.Exits {
+			label := ec.Label
+			if label == "" {
+				label = fmt.Sprint(i + 1)
+			}
+			u.addOblNamed(est, "exit", fmt.Sprintf("exit#%d.%s%s", li.ordinal, label, suffix), "on leaving loop "+fmt.Sprint(li.ordinal)+": "+ec.Src, from.Instrs[len(from.Instrs)-1].Pos(), u.evalBoolF(env, est, ec.Expr))
+		}
+	}
 	in[to] = append(in[to], incoming{st.clone(), cond, from})
 }
 
@@ -788,7 +822,7 @@ func (u *Unit) enterLoop(fr *Frame, li *loopInfo, st *State) {
 		u.havocItems(st, fs.items)
 		st.now = u.ctx.FreshConst("now", SInt)
 		u.assume(st, Ge(st.now, pre.now))
-	} else if li.impure {
+	} else if li.impure || (li.spec != nil && li.spec.ModifiesAll) {
 		u.havocAll(st, fmt.Sprintf("loop %d of %s without modifies clause", li.ordinal, funcKey(fr.fn)))
 		st.now = u.ctx.FreshConst("now", SInt)
 		u.assume(st, Ge(st.now, pre.now))
